@@ -128,7 +128,7 @@ def r22(chk, m):
         h.keep = lambda ev: False
         h.should_inline = A.private_only
         it = A.Interp(model=m, scope=fn, hooks=h, max_iter=len(pattern) + len(stream) + 2, exc_edges=False, inline=3, heap=True, precise_exc=True)
-        outs = it.run_function(fn, env={'self.args': list(pattern), 'self.definition': [x],
+        outs = it.run_function(fn, env={'self': A.Obj('definition', {'args': list(pattern), 'definition': [x]}, cls=Definition),
                                         'tex': A.Obj('tex', {'readArgument': A.Sym('extfunc:tex.readArgument', truthy=True)})})
         chk.paths += len(outs)
         got = set()
@@ -171,8 +171,8 @@ def r23(chk, m, rule_id='R2.3'):
         # of readers, through functools.partial)
         tex = A.Obj('tex', {'readArgument': A.Sym('extfunc:tex.readArgument', truthy=True)})
         try:
-            outs = it.run_function(fn, env={'self.opt': opt, 'self.nargs': 3, 'self.macroMode': m.class_const(Macro, 'MODE_NONE'),
-                                            'self.definition': [], 'tex': tex})
+            me = A.Obj('newcommand', {'opt': opt, 'nargs': 3, 'macroMode': m.class_const(Macro, 'MODE_NONE'), 'definition': []}, cls=NewCommand)
+            outs = it.run_function(fn, env={'self': me, 'tex': tex})
         except AnalysisError as e:
             chk.undecided(R, 'NewCommand.invoke: %s' % label, '%s (%s)' % (e, '; '.join(sorted(set(list(it.imprecise) + list(it.unknown_branches)))[:4])), chk.where(fn))
             continue
